@@ -350,8 +350,10 @@ fn run(case: &Case08) -> Verdict {
     let expect_at = |len: usize| -> Option<&(usize, Snap, usize)> { marks.iter().rev().find(|m| m.0 == len) };
     let kinds: Vec<String> = case.ops.iter().map(|o| o.kind()).collect();
     let bad = |phase: &str, field: &str, detail: String, at_len: usize| -> Verdict {
+        // the redo-discard check does not depend on which operations built the history: its key names the new edit only
+        let hist = if phase == "new-edit-after-undo" { "*".to_string() } else { kinds.join(">") };
         Verdict::Bad(
-            format!("{phase}|{}|{field}", kinds.join(">")),
+            format!("{phase}|{hist}|{field}"),
             json!({"phase": phase, "field": field, "difference": detail, "undo_stack_len": at_len, "ops": kinds}),
         )
     };
@@ -449,14 +451,37 @@ fn run(case: &Case08) -> Verdict {
             }
         }
         if st.can_redo() {
-            st.set_current_layer(0);
-            let r = std::panic::catch_unwind(std::panic::AssertUnwindSafe(|| st.set_char((0, 0), AttributedChar::new('#', doc::make_attr(1, 2, 0, 0)))));
-            if let Ok(Ok(())) = r {
+            // the new edit is any operation that records an undo entry: set_char on odd seeds, otherwise drawn from the
+            // whole operation alphabet (crop, resize, selection and layer operations take other paths to the undo stack)
+            let mut tries = 0;
+            let mut edit: Option<EOp> = None;
+            while tries < 6 && edit.is_none() {
+                let op = if tries == 5 || (tries == 0 && case.walk % 3 == 0) { EOp::SetChar(0, 0, 0x23, 1, 2) } else { gen_op(&mut rng) };
+                tries += 1;
+                if matches!(op, EOp::SetCurrentLayer(_) | EOp::SetCaret(..)) {
+                    continue;
+                }
+                if !st.can_redo() {
+                    break;
+                }
+                let before = st.undo_stack_len();
+                let r = std::panic::catch_unwind(std::panic::AssertUnwindSafe(|| apply(&mut st, &op)));
+                match r {
+                    Ok(Ok(())) if st.undo_stack_len() > before => edit = Some(op),
+                    Ok(_) => {}
+                    Err(e) => {
+                        // a panicking operation is not an edit that reported success; the state is no longer defined
+                        let _ = panic_text(e);
+                        break;
+                    }
+                }
+            }
+            if let Some(op) = edit {
                 if st.can_redo() {
-                    return bad("new-edit-after-undo", "redo-still-possible", String::new(), st.undo_stack_len());
+                    return bad("new-edit-after-undo", &format!("redo-still-possible-after-{}", op.kind()), String::new(), st.undo_stack_len());
                 }
                 let s = snap(&st);
-                let _ = st.redo();
+                let _ = std::panic::catch_unwind(std::panic::AssertUnwindSafe(|| st.redo()));
                 let (f, d) = first_diff(&s, &snap(&st));
                 if f != "none" {
                     return bad("new-edit-after-undo", &format!("redo-changes-document:{f}"), d, st.undo_stack_len());
@@ -756,7 +781,7 @@ impl Prop for C08 {
         "C08"
     }
     fn rule(&self) -> &'static str {
-        "a history is a sequence of public EditState operations (set/swap char, add/remove/raise/lower/duplicate/clear/merge/toggle/move/resize layer, resize buffer with and without layers, crop, selection set/clear/add-to-mask/inverse, erase, flip x/y, justify, center, insert/delete row and column, erase row/column, scroll area, rotate, make transparent, stamp down, paste and anchor, ice/palette mode and font changes, plus current-layer / caret changes) on a 12x8 document of 1..=3 layers (alpha, offset, hidden, locked). After every operation that returns Ok the harness records (undo stack length, snapshot of buffer size, modes, palette, fonts, SAUCE and per layer order, properties, size, offset, default font page and every cell TextPane::get_char shows within the layer's size; content hidden by a smaller size becomes observable, and is then compared, when a later undo grows the size back). It then undoes everything (undo must return Ok, never panic, shrink the stack; at every length that equals an operation boundary the snapshot of that boundary must be back), redoes everything (same check, final snapshot), takes a random undo/redo walk, and checks that a new edit after an undo clears the redo history. Exhaustive: all histories of length 1 and 2 over a 54-operation instantiated alphabet on 3 documents (length 3: thorough complete, quick sampled); random histories up to length 40. An operation that returns Err ends the history; one that panics is outside C08 (counted). distinct_nontrivial = distinct (op-kind sequence, undo depth) histories that changed the document"
+        "a history is a sequence of public EditState operations (set/swap char, add/remove/raise/lower/duplicate/clear/merge/toggle/move/resize layer, resize buffer with and without layers, crop, selection set/clear/add-to-mask/inverse, erase, flip x/y, justify, center, insert/delete row and column, erase row/column, scroll area, rotate, make transparent, stamp down, paste and anchor, ice/palette mode and font changes, plus current-layer / caret changes) on a 12x8 document of 1..=3 layers (alpha, offset, hidden, locked). After every operation that returns Ok the harness records (undo stack length, snapshot of buffer size, modes, palette, fonts, SAUCE and per layer order, properties, size, offset, default font page and every cell TextPane::get_char shows within the layer's size; content hidden by a smaller size becomes observable, and is then compared, when a later undo grows the size back). It then undoes everything (undo must return Ok, never panic, shrink the stack; at every length that equals an operation boundary the snapshot of that boundary must be back), redoes everything (same check, final snapshot), takes a random undo/redo walk, and checks that a new edit after an undo (set_char or an operation drawn from the whole alphabet that records an undo entry) clears the redo history. Exhaustive: all histories of length 1 and 2 over a 54-operation instantiated alphabet on 3 documents (length 3: thorough complete, quick sampled); random histories up to length 40. An operation that returns Err ends the history; one that panics is outside C08 (counted). distinct_nontrivial = distinct (op-kind sequence, undo depth) histories that changed the document"
     }
     fn meta(&self, ctx: &Ctx) -> Value {
         json!({"floor_evaluations": 5000, "floor_distinct": ctx.tier.pick(2000u64, 50000u64),
